@@ -2,18 +2,23 @@
 
 Proof: PsV/Props/C08.lean
   control flow  C08_success_implies_all_ok, C08_mem_success_implies_all_ok, C08_cwrapper_zero_implies_all_ok,
-                C08_close_error_swallowed (witness for the code as found), C08_close_error_reported
-  bytes         C08_reader_prefix_stable, C08_prefix_safe_partial (+ instance), C08_crash_state_is_prefix
+                C08_close_error_swallowed (witness for the code as found), C08_close_error_reported,
+                C08_keys_before_data (+ C08_keys_after_data_as_found, witness for the call order as found)
+  bytes         C08_reader_prefix_stable, C08_prefix_safe_partial, C08_roundtrip_instance, C08_prefix_safe_tiny
 Tie (harness/c08_harness.cpp, libc + cfitsio interposition, real code in-process):
   * encoder: PsV.C08.encode t is byte-identical to the file cfitsio writes (length + FNV-1a of every generated table),
     and readCoreBytes (encode t) = t.core is evaluated for every generated table (hypothesis of C08_prefix_safe_partial);
-  * reader: verdict of the REAL reader on every crash-state file (op prefixes, partial last op, byte prefixes, zeroed
-    blocks) against PsV.C08.readBytes on the same bytes; relation: equal verdicts, except that the model may accept
+  * reader: verdict of the REAL reader on every crash-state file (op prefixes, partial last op, byte prefixes), on
+    every zeroed-block file and on mutated files (knot vectors / ORDERn / knot counts replaced: the reader's validation)
+    against PsV.C08.readBytes on the same bytes; relation: equal verdicts, except that the model may accept
     (as equal) a state the implementation rejects (only conservative direction; counted);
   * control flow: for every injected libc fault and every injected cfitsio step failure the statuses every cfitsio call
     returned are fed to writeFits/writeFitsMem/cWrapper; reported outcome and the sequence of calls must coincide.
 Oracle (independent of the model): reported success => the file on disk (buffer) reads back equal; no file left behind
-reads as a different table; no crash-state file reads as a different table."""
+reads as a different table; no crash-state file (K, B, P) reads as a different table.
+Zeroed-block files (Z) are not crash states: they are no prefix of the op log and the writer never creates holes (measured:
+ops_creating_holes). They are reported in the evidence (hole_states: rejected / load equal / load as a different table), never
+as violations."""
 import json, os, re
 
 HARNESS = "c08_harness.cpp"
@@ -56,13 +61,14 @@ def run(ctx):
 
     cnt = {}
     def bump(k, n=1): cnt[k] = cnt.get(k, 0) + n
-    tno = -1; tdesc = None; fsize = 0; ops = []; evals = 0; nontrivial = set(); follows_old = 0; follows_new = 0
+    tno = -1; tdesc = None; fsize = 0; ops = []; evals = 0; nontrivial = set(); follows_old = 0; follows_new = 0; follows_pre3 = 0; shift_at = None
+    holes = {"rejected": 0, "load_equal": 0, "load_as_different_table": 0}; hole_samples = []
     for n, (c, i, m) in enumerate(zip(C, I, M)):
         k = c[:1]
         if m == "bad-input":
             broken("driver could not parse", line=n, case=c[:120]); continue
         if k == "T":
-            tno += 1; ops = []; fsize = 0
+            tno += 1; ops = []; fsize = 0; shift_at = None
             w = c.split(); tdesc = {"table": tno, "ndim": int(w[1])}
             iw, mw = i.split(), m.split()
             kv = _kv(i); tdesc["nblocks"] = int(kv.get("nblocks", 0)); tdesc["nops"] = int(kv.get("nops", 0))
@@ -85,28 +91,43 @@ def run(ctx):
                 off, ln = int(w[2]), int(w[3])
                 if off > fsize: bump("ops_creating_holes")
                 if off + ln <= fsize: bump("ops_rewriting")
+                if off < fsize and off + ln > 2880:
+                    bump("ops_rewriting_behind_first_block")
+                    if shift_at is None: shift_at = len(ops)
                 fsize = max(fsize, off + ln)
-            bump("ops")
-        elif k in "KBPZ":
-            evals += 1; bump("crash_" + k)
-            if k != "Z":
+            ops.append(w[1]); bump("ops")
+        elif k in "KBPZX":
+            evals += 1; bump("crash_" + k if k != "X" else "mutated_files")
+            mutkind = None
+            if k == "X": i, mutkind = i.split(" kind="); bump("mutated_%s_%s" % (mutkind, i.split()[0]))
+            if k in "KBP":
                 nontrivial.add((tno, c))
                 if i.startswith("diff"):
-                    report("crash-state-loads-different:" + k, {"table": tdesc, "crash_state": c, "impl": i, "model": m, "line": n},
-                           "a crash-state file (%s; K=op prefix, B=partial op, P=byte prefix) is loaded by the real reader as a DIFFERENT table" % c)
+                    # the state lies behind the point where cfitsio began to move data already written (header block inserted)?
+                    shifted = k in "KB" and shift_at is not None and int(c.split()[1]) > shift_at
+                    report("crash-state-loads-different:" + k + (":while-data-are-being-moved" if shifted else ""),
+                           {"table": tdesc, "crash_state": c, "impl": i, "model": m, "line": n, "first_op_moving_written_data": shift_at},
+                           "a crash-state file (%s; K=op prefix, B=partial op, P=byte prefix) is loaded by the real reader as a DIFFERENT table%s" % (
+                               c, " (cfitsio was moving coefficient data already written to insert a header block: op %d onwards)" % shift_at if shifted else ""))
+            if k == "Z":
+                # a zeroed block is no prefix of the op log (outside the quantifier): classified and counted, never a violation
+                hk = "rejected" if i == "rej" else "load_equal" if i.startswith("eq") else "load_as_different_table"
+                holes[hk] += 1
+                if hk == "load_as_different_table" and len(hole_samples) < 3: hole_samples.append({"table": tdesc, "zeroed_block": int(c.split()[1]), "impl": i, "model": m})
             if m == "skip": bump("reader_impl_only")
             elif i == m: bump("reader_agree_" + i.split()[0])
-            elif i == "rej" and m.startswith("eq"): bump("reader_model_more_permissive")
-            else: broken("reader verdicts differ", table=tdesc, state=c, impl=i, model=m)
+            elif i == "rej" and m.startswith("eq") and k != "X": bump("reader_model_more_permissive")
+            else: broken("reader verdicts differ", table=tdesc, state=c[:200], mutation=mutkind, impl=i, model=m)
             if len(ctx.coverage["samples"]) < 8 and i.startswith("eq") and k == "B": ctx.coverage["samples"].append({"table": tdesc, "state": c, "impl": i, "model": m})
         elif k == "E":
             evals += 1
             kv = _kv(i); tag = kv.get("tag", "?"); fv = i.split("file=")[1].split(" tag=")[0]
             variant = c.split()[1]
-            new, old = m.split(" | old ")
+            new, old = m.split(" | old "); old, pre3 = old.split(" | pre3 ")
             got = "ret=%s steps=%s" % (kv.get("ret"), kv.get("steps", ""))
             kind = re.sub(r"@\d+$", "", tag)
             rep = {"table": tdesc, "entry_point": variant, "fault": tag, "impl": i, "model_repaired": new, "model_as_found": old, "line": n}
+            if got != new and got == pre3: rep["model_without_C08-3"] = pre3
             if int(kv.get("fired", "0")) > 0: nontrivial.add((tno, variant, tag)); bump("faults_fired")
             if tag.startswith("healthy"):
                 pass
@@ -119,6 +140,10 @@ def run(ctx):
                 report("failed-write-leaves-different-table:" + kind, rep,
                        "writer (%s) reported failure for %s but left a file that the reader loads as a DIFFERENT table" % (variant, kind))
             if got == new: follows_new += 1
+            elif got == pre3:
+                follows_pre3 += 1
+                if follows_pre3 == 1:
+                    broken("control flow follows the call order as found (coefficient data written before the header keys: fixes/C08-3.diff not applied), not the repaired model", **rep)
             else:
                 broken("control flow differs from the repaired model", **rep)
             if got == old: follows_old += 1
@@ -126,24 +151,36 @@ def run(ctx):
         elif k == "N":
             if i != m: broken("C wrapper null-argument behaviour", impl=i, model=m)
     st = json.load(open(stats))
-    if follows_new < follows_old:
+    if follows_new + follows_pre3 < follows_old:
         ctx.note("implementation follows the as-found control flow (writeFitsOld: close status swallowed) in %d runs, the repaired one in %d" % (follows_old, follows_new))
+    if follows_pre3:
+        ctx.note("implementation writes the coefficient data before the header keys in %d runs (writeFitsPre3: fixes/C08-3.diff not applied); the repaired order in %d" % (follows_pre3, follows_new))
+    if cnt.get("ops_rewriting_behind_first_block"):
+        ctx.note("cfitsio moved data which were already in the file: %d write ops rewrite file content behind the first block (a header block inserted in front of written data)" % cnt["ops_rewriting_behind_first_block"])
     if cnt.get("ops_creating_holes"):
         ctx.note("assumption violated: %d write ops start beyond the current end of file (holes)" % cnt["ops_creating_holes"])
     ctx.coverage["evaluations"] = evals
     ctx.coverage["distinct_nontrivial"] = len(nontrivial)
     ctx.coverage["rule"] = ("tables from VERIF_SEED (harness/c08_harness.cpp: ndim 1..5 x size classes from one block per HDU to several hundred blocks; "
-                            "periods/extents/aux variants); crash states: every op prefix, partial last op (every byte for files <= 20 blocks in the thorough tier, "
-                            "sampled otherwise), byte prefixes of the final file, zeroed blocks; faults: every op index x {ENOSPC, EFBIG, short write, sticky ENOSPC, fflush, fclose} "
-                            "on write_fits and the C wrapper, every cfitsio call index on all four entry points. non-trivial = distinct crash states + distinct fault runs whose fault actually fired")
+                            "periods/extents/aux variants; plus one 3-d table of 36^3 (thorough: 47^3) coefficients with 30 aux keys, whose primary header needs a second block); "
+                            "crash states: every op prefix, partial last op (every byte for files <= 20 blocks in the thorough tier, "
+                            "sampled otherwise), byte prefixes of the final file; zeroed blocks and mutated files (reader tie only); faults: every op index x {ENOSPC, EFBIG, short write, sticky ENOSPC, fflush, fclose} "
+                            "on write_fits and the C wrapper (sampled op indices for files of more than 48 ops in the quick tier, except the header-overflow table), every cfitsio call index on all four entry points. "
+                            "non-trivial = distinct crash states (K, B, P) + distinct fault runs whose fault actually fired")
     ctx.coverage["input_distribution"] = st
     ctx.coverage["counts"] = cnt
+    ctx.coverage["hole_states"] = dict(holes, total=sum(holes.values()), samples=hole_samples,
+        note="final file with one 2880-byte block zeroed, read by the real reader; not crash states (no prefix of the op log, the writer never writes beyond EOF: ops_creating_holes absent), "
+             "so outside the property's quantifier and never reported as violations. A zeroed header block, or zeroed knots which break the counts/monotonicity checks, are rejected; "
+             "a zeroed block of coefficients or of positive knots replaced by 0.0 in front cannot be told from data in a format without checksums and loads as a different table. "
+             "Model and implementation agree on every one of them (else the tie is broken).")
     ctx.coverage["control_flow_runs_matching_repaired_model"] = follows_new
     ctx.coverage["control_flow_runs_matching_as_found_model"] = follows_old
     ctx.coverage["faults_injected"] = st.get("faults_injected"); ctx.coverage["faults_fired"] = st.get("faults_fired")
     ctx.assumptions += [
         "file system = byte string changed by the fwrite/ftruncate calls libcfitsio issues (stdio buffering below fwrite and power-loss reordering below write(2) are not modelled)",
-        "cfitsio's disk driver never writes beyond the current end of file (measured per run: ops_creating_holes must be absent); a zeroed data block cannot be detected by any reader of a format without checksums (Z cases are compared model vs. implementation only)",
+        "cfitsio's disk driver never writes beyond the current end of file (measured per run: ops_creating_holes must be absent), so a file with a zeroed block is not a crash state of the writer; such files are read by both readers and classified in coverage.hole_states (rejected when the zeros hit a header or break the reader's count/knot validation, otherwise loaded as a different table: undetectable in a format without checksums); compared model vs. implementation only",
+        "with fixes/C08-3.diff the writer issues all header keys before pixel data, so cfitsio never inserts a header block in front of written data and writes the file strictly front to back (measured per run: ops_rewriting and ops_rewriting_behind_first_block absent, i.e. every op-prefix / partial-op crash state is a byte prefix of the final file, the case C08_prefix_safe_partial speaks about); cfitsio 4.2's ffiblk drops I/O errors while it shifts data (its copy loop takes every status for end-of-file)",
         "the model reader may accept (as equal) a state the implementation rejects: a partially present last header block (cfitsio announces the HDU once the first byte of its END card is there and then fails on the data) or missing zero padding after an image smaller than three blocks (cfitsio reads those through whole-block buffers, larger ones directly); never the other way round",
         "C08_prefix_safe_partial takes readCoreBytes (encode t) = t.core as a hypothesis; it is evaluated for every generated table (rt=1) and proved for one instance",
         "realloc failures under cfitsio's memory driver are not injected (cfitsio 4.2 dereferences a null pointer in ffppx before photospline sees a status)",
